@@ -1,6 +1,6 @@
 SPECIFICATION Spec
 CONSTANTS
-  Calls = {"score", "cost_table", "parcons_partition", "parfront_partition", "borda", "copeland", "bioconsert", "bioco", "kwiksort", "pickaperm", "parcons", "exact", "read_score", "unified", "sub_problem", "eq_str"}
+  Calls = {"score", "cost_table", "parcons_partition", "parfront_partition", "borda", "copeland", "bioconsert", "bioco", "kwiksort", "pickaperm", "parcons", "exact", "read_score", "unified", "sub_problem", "eq_str", "bio2", "handbuilt_score"}
   Random = {"kwiksort"}
   MaxLen = 3
 INVARIANT Repeatable
